@@ -174,7 +174,7 @@ def prop_history(case, stats):
 
 
 @st.composite
-def history_cases(draw, tier, outkind, first=None, families=None):
+def history_cases(draw, tier, outkind, first=None, families=None, driver_heavy=False):
     K = 4
     allow_bcast = not KF.is_open('KF-setitem-broadcast-reverse')
     pr = draw(PG.programs(n_inputs=(1, 1), in_rank=(1,), max_side=4, max_len=7, min_len=1, families=families, out=outkind, K=K,
@@ -189,12 +189,15 @@ def history_cases(draw, tier, outkind, first=None, families=None):
     rec['idx'] = [0] * len(rec['idx'])
     case['rec'] = rec
     dense = gen.nice_floats(-1.0, 1.0)
-    L = draw(st.integers(2, 10 if tier == 'thorough' else 8))
+    L = draw(st.sampled_from([6, 5, 8, 4, 7, 3] + ([10, 9] if tier == 'thorough' else []) + [2]))
     hist = []
     last = None      # (D, P) of the last UTPM forward or None
     drivers = DRIVERS_SCALAR if outkind == 'scalar' else DRIVERS_VECTOR
     while len(hist) < L:
         choices = ['forward', 'forward', 'driver', 'other_graph', 'replay_plain']
+        if driver_heavy:
+            # many driver calls coming back to the same (driver, point) after evaluations elsewhere
+            choices = ['driver', 'driver', 'driver', 'driver', 'forward', 'replay_plain']
         if last is not None:
             choices = ['reverse', 'reverse', 'reverse'] + choices
         k = draw(st.sampled_from(choices))
@@ -245,6 +248,15 @@ def _hist_classes(case):
             c.add('forward-other-D-P-then-reverse')
     if 'other_graph' in h:
         c.add('interleaved-second-graph')
+    hist = case['history']
+    for i, st_ in enumerate(hist):
+        if st_['step'] != 'driver':
+            continue
+        for j in range(i):
+            if hist[j]['step'] == 'driver' and hist[j]['name'] == st_['name'] and hist[j]['k'] == st_['k']:
+                between = hist[j + 1:i]
+                if any((b['step'] == 'driver' and b['k'] != st_['k']) or b['step'] in ('forward', 'replay_plain') for b in between):
+                    c.add('same-driver-same-point-after-other-evaluation')
     for i, s in enumerate(h):
         if s == 'driver' and 'reverse' in h[:i]:
             c.add('driver-after-reverse')
@@ -269,14 +281,18 @@ def buckets(tier):
     bl = []
     for kind in ('scalar', 'vector'):
         bl.append(Bucket('history:' + kind, (lambda kind=kind: history_cases(tier, kind)), prop_history,
-                         {'quick': 30, 'thorough': 350}, nontrivial=_nontrivial, classes=_classes,
+                         {'quick': 60, 'thorough': 350}, nontrivial=_nontrivial, classes=_classes,
                          shards={'quick': 6, 'thorough': 12}, weight=10.0))
         bl.append(Bucket('history-buffers:' + kind,
                          (lambda kind=kind: history_cases(tier, kind, first='rmw', families=['un', 'bin', 'binc', 'set', 'rmw', 'get', 'buf'])),
-                         prop_history, {'quick': 30, 'thorough': 300}, nontrivial=_nontrivial, classes=_classes,
+                         prop_history, {'quick': 60, 'thorough': 300}, nontrivial=_nontrivial, classes=_classes,
                          shards={'quick': 4, 'thorough': 6}, weight=10.0))
         bl.append(Bucket('history-elementwise:' + kind,
                          (lambda kind=kind: history_cases(tier, kind, first='un', families=['un', 'un', 'special', 'bin', 'binc', 'pow'])),
-                         prop_history, {'quick': 30, 'thorough': 300}, nontrivial=_nontrivial, classes=_classes,
+                         prop_history, {'quick': 60, 'thorough': 300}, nontrivial=_nontrivial, classes=_classes,
                          shards={'quick': 2, 'thorough': 6}, weight=10.0))
+        bl.append(Bucket('history-drivers:' + kind,
+                         (lambda kind=kind: history_cases(tier, kind, first='un', families=['un', 'bin', 'binc', 'pow', 'dot'], driver_heavy=True)),
+                         prop_history, {'quick': 40, 'thorough': 300}, nontrivial=_nontrivial, classes=_classes,
+                         shards={'quick': 3, 'thorough': 6}, weight=10.0))
     return bl
